@@ -20,6 +20,7 @@ import (
 	"fmt"
 	"os"
 	"runtime"
+	"runtime/debug"
 	"runtime/metrics"
 	"sort"
 	"time"
@@ -32,7 +33,7 @@ import (
 	"mosn.io/mosn/pkg/protocol/xprotocol/dubbo"
 	"mosn.io/mosn/pkg/protocol/xprotocol/dubbothrift"
 	"mosn.io/mosn/pkg/protocol/xprotocol/tars"
-	_ "mosn.io/mosn/pkg/stream/xprotocol"
+	xstream "mosn.io/mosn/pkg/stream/xprotocol"
 	"verif/vh"
 )
 
@@ -47,9 +48,14 @@ var codecNames = []string{"bolt", "boltv2", "dubbo", "dubbothrift", "tars"}
 var codecs = map[string]api.XProtocolCodec{"bolt": &bolt.XCodec{}, "boltv2": &boltv2.XCodec{}, "dubbo": &dubbo.XCodec{},
 	"dubbothrift": &dubbothrift.XCodec{}, "tars": &tars.XCodec{}}
 
+// registerCodecs does what cmd/mosn/main/control.go does at start-up (bolt and boltv2 fall through to each other
+// via the registry).
 func registerCodecs() {
+	xprotocol.RegisterXProtocolAction(xstream.NewConnPool, xstream.NewStreamFactory, func(codec api.XProtocolCodec) {})
 	for _, n := range codecNames {
-		_ = xprotocol.RegisterXProtocolCodec(codecs[n])
+		if err := xprotocol.RegisterXProtocolCodec(codecs[n]); err != nil && os.Getenv("C08_DEBUG") != "" {
+			fmt.Fprintln(os.Stderr, "register", n, err)
+		}
 	}
 }
 
@@ -79,6 +85,9 @@ func guarded(fn func()) (status string, alloc uint64) {
 		a0 := allocated()
 		defer func() {
 			r := recover()
+			if r != nil && os.Getenv("C08_DEBUG") != "" {
+				fmt.Fprintf(os.Stderr, "PANIC %.200v\n%s\n", r, debug.Stack())
+			}
 			done <- res{p: r != nil, alloc: allocated() - a0}
 		}()
 		fn()
